@@ -265,13 +265,32 @@ void flush_written(std::ostream &out, term_obj &t)
 }
 
 template <class T>
+std::string cmp_answers(T const &a, T const &b)
+{
+    std::ostringstream o;
+    auto const c = a <=> b;
+    o << (a == b) << " " << (a != b) << " " << (a < b) << " "
+      << (a > b) << " " << (a <= b) << " " << (a >= b) << " "
+      << (c < 0 ? -1 : c > 0 ? 1 : 0);
+    return o.str();
+}
+
+// The comparisons are asked three times: before either value was hashed, after
+// the first was, after both were.  The answers may not depend on that (values
+// are used in containers in any order); CMPX lines report answers that changed.
+template <class T>
 void cmp(std::ostream &out, T const &a, T const &b)
 {
-    auto const c = a <=> b;
-    out << "CMP " << (a == b) << " " << (a != b) << " " << (a < b) << " "
-        << (a > b) << " " << (a <= b) << " " << (a >= b) << " "
-        << (c < 0 ? -1 : c > 0 ? 1 : 0) << " "
-        << (std::hash<T>{}(a) == std::hash<T>{}(b)) << "\n";
+    std::string const before = cmp_answers(a, b);
+    auto const ha = std::hash<T>{}(a);
+    std::string const mid = cmp_answers(a, b);
+    auto const hb = std::hash<T>{}(b);
+    std::string const after = cmp_answers(a, b);
+    bool const again = std::hash<T>{}(a) == ha && std::hash<T>{}(b) == hb;
+    out << "CMP " << before << " " << (ha == hb) << "\n";
+    if (mid != before) out << "CMPX after hashing the first value: " << mid << "\n";
+    if (after != before) out << "CMPX after hashing both values: " << after << "\n";
+    if (!again) out << "CMPX hashing a value twice gave different hashes\n";
 }
 
 template <class T>
@@ -453,6 +472,23 @@ void do_canvas(std::ostream &out, world &w, toks &t)
             [&out](element const &e, coordinate_type cx, coordinate_type cy) {
                 out << "KR " << cx << " " << cy << " " << pr_elem(e) << "\n";
             });
+        // the same region of the same canvas seen through a const reference
+        std::ostringstream oc, om;
+        for_each_in_region(
+            static_cast<canvas const &>(c),
+            {{coordinate_type(x), coordinate_type(y)}, {coordinate_type(a), coordinate_type(b)}},
+            [&oc](element const &e, coordinate_type cx, coordinate_type cy) {
+                oc << "KR " << cx << " " << cy << " " << pr_elem(e) << "\n";
+            });
+        for_each_in_region(
+            c,
+            {{coordinate_type(x), coordinate_type(y)}, {coordinate_type(a), coordinate_type(b)}},
+            [&om](element &e, coordinate_type cx, coordinate_type cy) {
+                om << "KR " << cx << " " << cy << " " << pr_elem(e) << "\n";
+            });
+        if (oc.str() != om.str())
+            out << "KRX the region visited through a const canvas differs: " << oc.str().size() << " bytes vs " << om.str().size() << "\n"
+                << oc.str();
     }
     else out << "ERR unknown canvas op\n";
 }
